@@ -34,8 +34,9 @@ ParseLeaf(b, o) ==
          IF (n - 1) < 2 + klen THEN [ok |-> FALSE, size |-> 0]
          ELSE LET pos == 1 + 2 + klen IN          \* bytes consumed so far
               IF pos + 4 > n THEN [ok |-> FALSE, size |-> 0]
-              ELSE LET vlen == RU32(b, o + pos) IN
-                   IF vlen > n - (pos + 4) THEN [ok |-> FALSE, size |-> 0]      \* (written without overflow)
+              ELSE LET huge == b[o + pos + 3] >= 128          \* >= 2^31: beyond TLC's integers, and beyond any buffer here
+                       vlen == IF huge THEN 0 ELSE RU32(b, o + pos) IN
+                   IF huge \/ vlen > n - (pos + 4) THEN [ok |-> FALSE, size |-> 0]      \* (written without overflow)
                    ELSE [ok |-> TRUE, size |-> pos + 4 + vlen]
 
 ParseInternal(b) ==
@@ -65,7 +66,8 @@ Bases ==
            fields |-> <<[name |-> "prefix", at |-> 1, w |-> 1], [name |-> "labelbits", at |-> 2, w |-> 2], [name |-> "leafprefix", at |-> 4 + Ceil8(bits), w |-> 1]>>] : bits \in LabelBits}
     \cup {[kind |-> "int_leaf", bytes |-> EncInt(bits, Rep(170, Ceil8(bits)), EncLeaf(k, v), Rep(17, HashSize), Rep(34, HashSize)),
            fields |-> <<[name |-> "prefix", at |-> 1, w |-> 1], [name |-> "labelbits", at |-> 2, w |-> 2], [name |-> "leafprefix", at |-> 4 + Ceil8(bits), w |-> 1],
-                        [name |-> "leafkeylen", at |-> 5 + Ceil8(bits), w |-> 2]>>] : bits \in LabelBits, k \in KeysW, v \in ValsW}
+                        [name |-> "leafkeylen", at |-> 5 + Ceil8(bits), w |-> 2],
+                        [name |-> "leafvallen", at |-> 7 + Ceil8(bits) + Len(k), w |-> 4]>>] : bits \in LabelBits, k \in KeysW, v \in ValsW}
     \cup {[kind |-> "int_compact", bytes |-> EncInt(bits, Rep(170, Ceil8(bits)), <<2>>, <<>>, <<>>),
            fields |-> <<[name |-> "prefix", at |-> 1, w |-> 1], [name |-> "labelbits", at |-> 2, w |-> 2]>>] : bits \in LabelBits}
 
@@ -84,10 +86,18 @@ Mutants(base) ==
                           {cur + 1, IF cur > 0 THEN cur - 1 ELSE 3, 255, 65535} \cup (IF base.fields[i].w = 4 THEN {16777215, 2147483647} ELSE {2, 3})}
                 : i \in DOMAIN base.fields}
 
+(* 32-bit length fields at the top of the unsigned range (a sum "position + length" wraps around in 32-bit arithmetic): *)
+(* 2^32-1-j for small j, 2^31, 2^32-2^24 - written as bytes, the values do not fit TLC's integers                      *)
+RawU32Patterns == {<<255 - j, 255, 255, 255>> : j \in 0..40} \cup {<<0, 0, 0, 128>>, <<0, 0, 0, 255>>, <<1, 0, 0, 128>>}
+SetRaw(b, f, enc) == [i \in DOMAIN b |-> IF i >= f.at /\ i < f.at + f.w THEN enc[i - f.at + 1] ELSE b[i]]
+RawMutants(base) ==
+    UNION {{[m |-> base.fields[i].name \o "=raw" \o ToString(enc), bytes |-> SetRaw(base.bytes, base.fields[i], enc)] : enc \in RawU32Patterns}
+           : i \in {j \in DOMAIN base.fields : base.fields[j].w = 4}}
+
 VARIABLES case, emitted
 vars == <<case, emitted>>
 
-Init == \E base \in Bases : \E mu \in Mutants(base) :
+Init == \E base \in Bases : \E mu \in Mutants(base) \cup RawMutants(base) :
             /\ case = [kind |-> base.kind, m |-> mu.m, bytes |-> mu.bytes, accept |-> ParseNode(mu.bytes)]
             /\ emitted = FALSE
 Next == ~emitted /\ emitted' = TRUE /\ UNCHANGED case
